@@ -185,7 +185,31 @@ def mirrorAgrees (t : Tr Node) (seeds : List Node) : Bool :=
       (let r := halfOf (rest t seeds)
        d'.all (· ∈ r) && r.all (· ∈ d'))
 
+/-- runtime check of the hypothesis `Describes` of the theorems on the model's own batch: every object and
+every valid ingress that changed between the cluster of the previous sync and the current one is in `links`,
+a touched ingress that is valid now is carried by `add`/`upd`, IngressClasses and the ConfigMap are unchanged
+(checked over the objects of both cluster states; absent objects read as `none` on both sides) -/
+def describesWhy (w w' : World) (b : Batch) : Option String :=
+  let chk (k : Kind) (keys : List String) : Bool :=
+    keys.all fun key => (w.read ⟨k, key⟩ == w'.read ⟨k, key⟩) || decide ((⟨k, key⟩ : Node) ∈ b.links)
+  let vi (x : World) (k : String) : Option Ingress := (x.findIng k).filter x.valid
+  if !chk .svc (w.svcs.map (·.key) ++ w'.svcs.map (·.key)) then some "service" else
+  if !chk .ep (w.eps.map (·.key) ++ w'.eps.map (·.key)) then some "endpoints" else
+  if !chk .sec (w.secs.map (·.key) ++ w'.secs.map (·.key)) then some "secret" else
+  if !(w.cm == w'.cm) then some "configmap" else
+  if !((w.ings.map (·.key) ++ w'.ings.map (·.key)).all fun k =>
+    (vi w k == vi w' k) || decide ((⟨.ing, k⟩ : Node) ∈ b.links)) then some "ingress" else
+  if !((namesOf .ing b.links).all fun k =>
+    match vi w' k with
+    | some i => decide (i ∈ b.add) || decide (i ∈ b.upd)
+    | none => true) then some "carried" else
+  if !((b.add ++ b.upd).all fun i => decide ((⟨.ing, i.key⟩ : Node) ∈ b.links)) then some "events" else
+  if !(b.del.all fun k => decide ((⟨.ing, k⟩ : Node) ∈ b.links)) then some "del" else none
+
+def describesB (w w' : World) (b : Batch) : Bool := (describesWhy w w' b).isNone
+
 structure Run where
+  wPrev : World := {}                   -- the cluster at the previous sync
   w : World := {}
   c : Ctl := {}
   b : Batch := {}
@@ -206,9 +230,10 @@ def doSync (r : Run) (obs? : Option String) : Run :=
   let dH := namesOf .host out
   let dB := namesOf .back out
   let mirrorOk := full || mirrorAgrees st1.tr b.links
+  let describesOk := full || describesB r.wPrev w b
   let sig := if full || r.sig.isSome then r.sig else
     if !(lateBacks currentRev w b old).isEmpty then some "late-ref-surviving-backend"
-    else if !(lateHosts currentRev w b old).isEmpty then some "late-ref-surviving-host"
+    else if !(lateHosts currentRev w b old).isEmpty then some "default-host-entry-not-pretracked"
     else none
   let c' := reconcile currentRev w b r.c
   let new := c'.st
@@ -241,9 +266,11 @@ def doSync (r : Run) (obs? : Option String) : Run :=
         if (if full then (csv (field f "uh")).all (· ∈ newH) && newH.all (· ∈ csv (field f "uh"))
             else explained (csv (field f "uh")) oldH newH dH) then none else some s!"sync{k}:updating-hosts:{field f "uh"}:dirty={joinC dH}",
         if explained (csv (field f "ub")) oldB newB dB then none else some s!"sync{k}:updating-backends:{field f "ub"}:dirty={joinC dB}",
-        if mirrorOk then none else some s!"sync{k}:go-mirror"]
+        if mirrorOk then none else some s!"sync{k}:go-mirror",
+        if describesOk then none else
+          some s!"sync{k}:batch-does-not-describe-the-change:{(describesWhy r.wPrev w b).getD "-"}"]
       checks.findSome? id
-  { w := w, c := c', b := {}, k := k, mism := mism, sig := sig,
+  { wPrev := w, w := w, c := c', b := {}, k := k, mism := mism, sig := sig,
     nontrivial := r.nontrivial || (!full && !out.isEmpty) }
 
 def handle (args : List String) (impl : String) : Verdict :=
